@@ -799,7 +799,7 @@ def c17_obligations(tier):
             obs.append(ob_step_true(kind, cl))
         if kind != "nonstatio":
             # residual vectors (what jinns' equations return: shape (k,) per point): ranking by the sum of squared components
-            for cols in (1, 2):
+            for cols in ((1, 2) if tier == "quick" else (1, 2, 3, 4)):
                 obs.append(ob_step_true(kind, "adds_highest_residual_candidates", cols=cols))
             obs.append(ob_step_true(kind, "active_points_kept", cols=2))
     obs.append(ob_reshuffle_keeps_active_set())
